@@ -33,6 +33,10 @@ Inductive path :=
 | POutT (k t : Z)      (* .../<args_id>/output.pkl.thread-..-pid-..   *)
 | PMetaT (k t : Z).    (* .../<args_id>/metadata.json.thread-..-pid-..*)
 
+(* the writer id: concurrency_safe_write's suffix ".thread-<id(current_thread())>-pid-<getpid()>";
+   a thread id is an address, below 2^64 *)
+Definition writer_id (pid th : Z) : Z := pid * 18446744073709551616 + th.
+
 Definition path_eqb (a b : path) : bool :=
   match a, b with
   | PLoc, PLoc | PGit, PGit | PRoot, PRoot | PMod, PMod | PFunc, PFunc | PCode, PCode => true
@@ -263,6 +267,82 @@ Definition rmtree (strict : bool) (p : path) : prog (result unit) :=
 Definition rmtree_ign (p : path) : prog unit :=
   pbind (rmtree false p) (fun _ => Ret tt).
 
+(* ------------------------------------------- the store methods as statement lists *)
+(* The order of the backend primitives in dump_item / store_metadata / store_cached_func_code /
+   _concurrency_safe_write is data: the lists below are compared (Proofs/FsModelGen.v) with the
+   lists REGENERATED from joblib/_store_backends.py by harness/gen_c05.py (coq/Gen/T_store_ops.v). *)
+Inductive pexp := EItem | EFunc | EOutput | EMetadata | ECode.
+Inductive sstmt :=
+| SEnsure (p : pexp)          (* if not self._item_exists(p): self.create_location(p) *)
+| SCreate (p : pexp)          (* self.create_location(p) *)
+| SSafeWrite (final : pexp)   (* self._concurrency_safe_write(obj, final, write_func) *)
+| SWriteIfGiven (p : pexp).   (* if func_code is not None: with self._open_item(p, "wb") as f: f.write(...) *)
+Inductive handler := HSwallow | HPropagate.
+Inductive cstmt :=
+| CWriteTmp                   (* tmp = concurrency_safe_write(obj, filename, write_func): open(tmp,'wb'), write *)
+| CMove.                      (* self._move_item(tmp, filename) *)
+Inductive tmpname := TmpThreadPid.   (* "{}.thread-{}-pid-{}".format(filename, id(current_thread()), getpid()) *)
+
+Definition dump_item_src : list sstmt * handler := ([SEnsure EItem; SSafeWrite EOutput], HSwallow).
+Definition store_metadata_src : list sstmt * handler := ([SCreate EItem; SSafeWrite EMetadata], HSwallow).
+Definition store_code_src : list sstmt * handler := ([SEnsure EFunc; SWriteIfGiven ECode], HPropagate).
+Definition csw_src : list cstmt := [CWriteTmp; CMove].
+Definition tmpname_src : tmpname := TmpThreadPid.
+
+(* _concurrency_safe_write: write_func(obj, tmp) then os.replace(tmp, final) *)
+Fixpoint csw_interp (tmp final : path) (b : bytes) (k : result unit -> prog (result unit)) (l : list cstmt)
+  : prog (result unit) :=
+  match l with
+  | [] => k (Ok tt)
+  | CWriteTmp :: rest =>
+      Op (Creat tmp) (fun r =>
+        match r with
+        | RErr e => k (Raise (exn_of e))
+        | _ => Op (Write tmp b) (fun _ => csw_interp tmp final b k rest)
+        end)
+  | CMove :: rest =>
+      Op (Rename tmp final) (fun r2 =>
+        match r2 with RErr e => k (Raise (exn_of e)) | _ => csw_interp tmp final b k rest end)
+  end.
+
+Definition csw (tmp final : path) (b : bytes) (k : result unit -> prog (result unit)) : prog (result unit) :=
+  csw_interp tmp final b k csw_src.
+
+(* the three store methods are the interpretation of their statement lists (see above) *)
+Definition path_of (k : Z) (p : pexp) : path :=
+  match p with EItem => PEntry k | EFunc => PFunc | EOutput => POut k | EMetadata => PMeta k | ECode => PCode end.
+
+Definition tmp_of (t k : Z) (p : pexp) : path :=
+  match p with EOutput => POutT k t | EMetadata => PMetaT k t | _ => path_of k p end.
+
+Fixpoint interp_store (t k : Z) (payload : pexp -> bytes) (c : option bytes) (l : list sstmt) : prog (result unit) :=
+  match l with
+  | [] => Ret (Ok tt)
+  | SEnsure p :: rest =>
+      Op (Stat (path_of k p)) (fun r =>
+        if is_ok r then interp_store t k payload c rest
+        else ebind (mkdirp (path_of k p)) (fun _ => interp_store t k payload c rest))
+  | SCreate p :: rest => ebind (mkdirp (path_of k p)) (fun _ => interp_store t k payload c rest)
+  | SSafeWrite fin :: rest =>
+      csw (tmp_of t k fin) (path_of k fin) (payload fin)
+          (fun r => match r with Ok _ => interp_store t k payload c rest | Raise e => Ret (Raise e) end)
+  | SWriteIfGiven p :: rest =>
+      match c with
+      | None => interp_store t k payload c rest
+      | Some b => Op (Creat (path_of k p)) (fun r =>
+                    match r with
+                    | RErr e => Ret (Raise (exn_of e))
+                    | _ => Op (Write (path_of k p) b) (fun _ => interp_store t k payload c rest)
+                    end)
+      end
+  end.
+
+Definition handled (h : handler) (p : prog (result unit)) : prog (result unit) :=
+  match h with
+  | HSwallow => pbind p (fun _ => Ret (Ok tt))     (* except Exception: warn / except: pass *)
+  | HPropagate => p
+  end.
+
 Section Memory.
 (* external code: pickle / unpickle (with any compressor), the json metadata, the function's
    source text as written to func_code.py, the comparison done on it, utf-8 decoding, the user
@@ -284,37 +364,15 @@ Variable cb : option bool.                (* cache_validation_callback: None, or
 
 (* StoreBackendMixin.store_cached_func_code([func_id], func_code) *)
 Definition store_code (c : option bytes) : prog (result unit) :=
-  let w := match c with
-           | None => Ret (Ok tt)
-           | Some b => Op (Creat PCode) (fun r =>
-                         match r with
-                         | RErr e => Ret (Raise (exn_of e))
-                         | _ => Op (Write PCode b) (fun _ => Ret (Ok tt))
-                         end)
-           end in
-  Op (Stat PFunc) (fun r => if is_ok r then w else ebind (mkdirp PFunc) (fun _ => w)).
-
-(* _concurrency_safe_write: write_func(obj, tmp) then os.replace(tmp, final) *)
-Definition csw (tmp final : path) (b : bytes) (k : result unit -> prog (result unit)) : prog (result unit) :=
-  Op (Creat tmp) (fun r =>
-    match r with
-    | RErr e => k (Raise (exn_of e))
-    | _ => Op (Write tmp b) (fun _ =>
-             Op (Rename tmp final) (fun r2 =>
-               k (match r2 with RErr e => Raise (exn_of e) | _ => Ok tt end)))
-    end).
+  handled (snd store_code_src) (interp_store 0 0 (fun _ => []) c (fst store_code_src)).
 
 (* dump_item: every exception becomes a CacheWarning *)
 Definition dump_item (k v : Z) : prog unit :=
-  pbind (Op (Stat (PEntry k)) (fun r =>
-           ebind (if is_ok r then Ret (Ok tt) else mkdirp (PEntry k)) (fun _ =>
-             csw (POutT k t) (POut k) (pickle v) (fun r => Ret r))))
-        (fun _ => Ret tt).
+  pbind (handled (snd dump_item_src) (interp_store t k (fun _ => pickle v) None (fst dump_item_src))) (fun _ => Ret tt).
 
 (* store_metadata: bare except: pass *)
 Definition store_metadata (k : Z) : prog unit :=
-  pbind (ebind (mkdirp (PEntry k)) (fun _ => csw (PMetaT k t) (PMeta k) meta (fun r => Ret r)))
-        (fun _ => Ret tt).
+  pbind (handled (snd store_metadata_src) (interp_store t k (fun _ => meta) None (fst store_metadata_src))) (fun _ => Ret tt).
 
 (* MemorizedFunc.clear: clear_path([func_id]) then _write_func_code *)
 Definition clear_func : prog (result unit) :=
